@@ -55,6 +55,18 @@ func bindingsOf(data []byte) (map[binding]bool, bool) {
 	return out, true
 }
 
+// illTyped tells the two kinds of damage apart. A damaged file that still is well-formed YAML of
+// the right types merely says something else than the original (the library has no way to know:
+// the recorded no-integrity-protection finding). One that an independent strict reading rejects
+// (syntax error, or a scalar of the wrong type such as a letter inside a number) carries no
+// binding at all: whatever the library loads from it is made up.
+func illTyped(data []byte) string {
+	if _, ok := bindingsOf(data); !ok {
+		return "-of-ill-typed-file"
+	}
+	return ""
+}
+
 func sortedBindings(m map[binding]bool) []string {
 	var s []string
 	for b := range m {
@@ -162,8 +174,14 @@ func (l *leaseRun) checkDamaged(what, kind string, got, ref map[binding]bool) {
 				switch {
 				case r.mac == b.mac && r.ip == b.ip:
 					field = "client-id-altered"
+					if len(r.cid) != len(b.cid) { // an element lost or gained, not a changed value
+						field = "client-id-length-changed"
+					}
 				case r.cid == b.cid && r.ip == b.ip:
 					field = "mac-altered"
+					if len(r.mac) != len(b.mac) {
+						field = "mac-length-changed"
+					}
 				case r.cid == b.cid && r.mac == b.mac:
 					field = "ip-altered"
 				}
@@ -380,7 +398,7 @@ func runLease(e *exec) {
 				mut[pos] = c
 				got, w2 := l.restartWith(fmt.Sprintf("byte %d %q->%q", pos, orig, c), mut, true)
 				if got != nil {
-					l.checkDamaged(fmt.Sprintf("byte %d of the intact file changed %q->%q (line %q)", pos, orig, c, lineAt(final, pos)), "substitution", got, ref)
+					l.checkDamaged(fmt.Sprintf("byte %d of the intact file changed %q->%q (line %q)", pos, orig, c, lineAt(final, pos)), "substitution"+illTyped(mut), got, ref)
 				}
 				l.shutdown(w2)
 				corr++
@@ -405,7 +423,7 @@ func runLease(e *exec) {
 				name := []string{"deleted", "duplicated"}[which]
 				got, w2 := l.restartWith(fmt.Sprintf("line %d %s", i, name), mut, true)
 				if got != nil {
-					l.checkDamaged(fmt.Sprintf("line %d (%q) %s", i, strings.TrimSpace(string(lines[i])), name), "line-"+name, got, ref)
+					l.checkDamaged(fmt.Sprintf("line %d (%q) %s", i, strings.TrimSpace(string(lines[i])), name), "line-"+name+illTyped(mut), got, ref)
 				}
 				l.shutdown(w2)
 				corr++
